@@ -17,6 +17,7 @@ import (
 	"google.golang.org/grpc/metadata"
 	"google.golang.org/grpc/peer"
 	"google.golang.org/protobuf/proto"
+	"google.golang.org/protobuf/types/known/wrapperspb"
 )
 
 // Event is one recorded operation (invoke + return) of a client or handler.
@@ -306,15 +307,28 @@ func (s *Sim) clientMain(rs *rpcState, g int, ops []Op) {
 			req := buildObj(spec, r.DynC)
 			rs.sentObjs = append(rs.sentObjs, req)
 			resp := newDst(junk, r.DynC)
+			mismatch := false
+			for _, op := range ops {
+				if op.K == "invoke" && op.N == 2 {
+					mismatch = true
+					resp = &wrapperspb.StringValue{} // a response type the reply may not decode into
+				}
+			}
 			ev := s.begin(r.ID, 'c', g, "invoke")
 			ev.Msg = spec
 			ev.sobj = req
 			err := guard(ev, func() error { return conn.Invoke(rs.ctx, r.Call, req, resp, opts...) })
-			if err == nil {
+			if err == nil && mismatch {
+				ev.Got = "StringValue"
+				ev.Note = "decoded-into-other-type"
+			} else if err == nil {
 				ev.GotMsg = proto.Clone(asGen(resp))
 				ev.Got = digestAny(resp)
 				ev.obj = resp
 				rs.recvObjs = append(rs.recvObjs, resp)
+			}
+			if mismatch {
+				ev.Flags = map[string]string{"mismatch": "1"}
 			}
 			s.snapshotOpts(rs, ev)
 			if rs.peerOpt != nil {
@@ -414,7 +428,11 @@ func (s *Sim) clientOp(rs *rpcState, g int, st grpc.ClientStream, op Op) {
 		if st == nil {
 			return
 		}
-		s.clientRecv(rs, g, st, op.N == 1)
+		if op.N == 2 {
+			s.clientRecvMismatch(rs, g, st)
+		} else {
+			s.clientRecv(rs, g, st, op.N == 1)
+		}
 	case "recvall":
 		if st == nil {
 			return
@@ -483,6 +501,31 @@ func (s *Sim) clientOp(rs *rpcState, g int, st grpc.ClientStream, op Op) {
 	case "invoke":
 		// handled in clientMain
 	}
+}
+
+// clientRecvMismatch receives into a message of another type
+// (wrapperspb.StringValue, whose field 1 is a string where the test message has
+// bytes): whatever cannot be decoded into it must come back as an error.
+func (s *Sim) clientRecvMismatch(rs *rpcState, g int, st grpc.ClientStream) error {
+	r := rs.r
+	dst := &wrapperspb.StringValue{}
+	ev := s.begin(r.ID, 'c', g, "recv")
+	ev.Flags = map[string]string{"mismatch": "1"}
+	err := guard(ev, func() error { return st.RecvMsg(dst) })
+	if err == nil {
+		ev.Got = "StringValue:" + fmt.Sprint(len(dst.Value))
+		ev.Note = "decoded-into-other-type"
+	}
+	if err != nil || r.Kind == KClientStream {
+		ev.MD2 = mdCopy(safeTrailer(st))
+		s.snapshotOpts(rs, ev)
+		if ev.Flags == nil {
+			ev.Flags = map[string]string{}
+		}
+		ev.Flags["mismatch"] = "1"
+	}
+	s.end(ev, err)
+	return err
 }
 
 func (s *Sim) clientRecv(rs *rpcState, g int, st grpc.ClientStream, junk bool) error {
